@@ -5,6 +5,8 @@ reference-decoder model and un-reordered through the brick-traversal model, scal
 constants tensor) on random inputs, and the result is compared bit for bit with a transcription of the
 TFLite reference kernels evaluated on the SOURCE model (tools/refnet.py)."""
 import collections
+import json
+import shutil
 import os
 import random
 import subprocess
@@ -319,10 +321,101 @@ def decode_outputs(data, layout):
     return vals
 
 
+def rewrite_cases(n, rng):
+    """operator triples SPACE_TO_BATCH_ND / VALID convolution / BATCH_TO_SPACE_ND around the paddings and crops of a SAME
+    and of a VALID dilated convolution: exact ones, and ones that are off on one axis or by one element"""
+    cases, kinds = [], collections.Counter()
+    while len(cases) < n:
+        ax = []
+        style = rng.choice(["same", "valid", "same", "valid", "mixed", "off", "free"])
+        for a in range(2):
+            i = rng.randrange(3, 13)
+            k = 1 if style == "free" and rng.random() < 0.6 else rng.choice([1, 2, 3, 3])
+            b = rng.choice([1, 2, 2, 3, 4])
+            span = (k - 1) * b
+            mode = style if style in ("same", "valid") else rng.choice(["same", "valid"])
+            if style == "mixed":
+                mode = ["same", "valid"][a]
+            ct = rng.choice([0, 0, 0, 1, 2])
+            lead = span // 2 if mode == "same" else 0
+            o = i if mode == "same" else i - span
+            if style == "off" and rng.random() < 0.7:
+                if rng.random() < 0.5:
+                    lead += rng.choice([-1, 1, 2])
+                else:
+                    o += rng.choice([-1, 1])
+            pt = lead + ct
+            if pt < 0 or o <= 0:
+                ax = None
+                break
+            # trailing padding: up to a multiple of the block that leaves room for the result
+            need = o + ct + span
+            tot = max(i + pt, need)
+            tot = -(-tot // b) * b
+            if rng.random() < 0.2:
+                tot += b
+            pb = tot - i - pt
+            cb = (tot // b - k + 1) * b - ct - o
+            if pb < 0 or cb < 0 or tot // b - k + 1 <= 0:
+                ax = None
+                break
+            ax.append((i, o, k, b, pt, pb, ct, cb))
+        if ax is None:
+            continue
+        (ih, oh, kh, bh, pt, pb, ct, cb), (iw, ow, kw, bw, pl, pr, cl, cr) = ax
+        kinds[style] += 1
+        cases.append([ih, iw, rng.choice([1, 4, 8]), rng.choice([1, 4, 8]), kh, kw, bh, bw, pt, pb, pl, pr, ct, cb, cl, cr,
+                      1 if rng.random() < 0.3 else 0])
+    return cases, kinds
+
+
+def rewrite_decisions(res, tier, okx):
+    """correspondence of model/Rewrites.v dilated_decision with replace_dilated_convolution (run on operators that Vela's
+    own reader built)"""
+    import tempfile
+    n = 300 if tier == "quick" else 6000
+    rng = random.Random("c01rw/%d" % vlib.seed())
+    cases, kinds = rewrite_cases(n, rng)
+    tmp = tempfile.mkdtemp(prefix="c01rw_", dir=vlib.BUILD)
+    cj, oj = os.path.join(tmp, "cases.json"), os.path.join(tmp, "out.json")
+    json.dump(cases, open(cj, "w"))
+    p = subprocess.run([vlib.PY, os.path.join(vlib.ROOT, "tools", "rewrite_worker.py"), cj, oj], env=vlib.py_env({"VERIF_TMP": tmp}),
+                       capture_output=True, text=True, timeout=3000)
+    if p.returncode != 0 or not os.path.exists(oj):
+        res.violation({"machinery": "rewrite worker"}, {"stderr": p.stderr[-1500:]},
+                      "C01: replace_dilated_convolution could not be run on generated operator triples", no_input=True)
+        return {"cases": 0}
+    impl = json.load(open(oj))
+    shutil.rmtree(tmp, ignore_errors=True)
+    rows = [(c, o) for c, o in zip(cases, impl) if o[0] >= 0]
+    model = models.run("dilated_decision", [[c[0], c[1], o[1], o[2], c[4], c[5], c[6], c[7], c[8], c[10], c[12], c[14]] for c, o in rows]) if okx and rows else []
+    dec = collections.Counter()
+    bad = 0
+    for (c, o), m in zip(rows, model):
+        dec[(o[0], m[0])] += 1
+        wrong_dil = o[0] in (1, 2) and (o[3], o[4]) != (c[6], c[7])
+        if (o[0] != m[0] or wrong_dil) and bad < 5:
+            bad += 1
+            names = ["ih", "iw", "c", "oc", "kh", "kw", "bh", "bw", "pad_top", "pad_bottom", "pad_left", "pad_right", "crop_top", "crop_bottom",
+                     "crop_left", "crop_right", "depthwise"]
+            res.violation({"kind": "dilated_rewrite_decision", "case": c},
+                          {"case": dict(zip(names, c)), "output_extent": o[1:3], "implementation (0 leave, 1 SAME, 2 VALID)": o[0],
+                           "dilation set by the implementation": o[3:5], "model dilated_decision": m[0],
+                           "replay_cmd": "cd /verif && echo '[%s]' > /tmp/c.json && PYTHONPATH=/repo /venv/bin/python tools/rewrite_worker.py /tmp/c.json /tmp/o.json && cat /tmp/o.json" % json.dumps(c)},
+                          "C01: replace_dilated_convolution decides %d on SPACE_TO_BATCH_ND / convolution / BATCH_TO_SPACE_ND with paddings %s crops %s "
+                          "(in %dx%d, kernel %dx%d, block %dx%d, out %dx%d) where the proved decision (props/C01.v dilated_rewrite_decision_sound) is %d: "
+                          "the emitted convolution is not the chain it replaces" % (
+                              o[0], [c[8], c[9], c[10], c[11]], [c[12], c[13], c[14], c[15]], c[0], c[1], c[4], c[5], c[6], c[7], o[1], o[2], m[0]))
+    return {"cases": len(rows), "inconsistent_cases_skipped": len(cases) - len(rows), "styles": dict(kinds),
+            "decisions (implementation, model) -> count": {"%d,%d" % k: v for k, v in sorted(dec.items())}}
+
+
 def run(tier):
     res = vlib.Result("C01", tier, "other")
     b = vlib.build_property("C01")
     okx, xlog = vlib.build_extraction("npuExec")
+    okm, _ = vlib.build_extraction()
+    rw_cov = rewrite_decisions(res, tier, okm and b["ok"])
     n = 440 if tier == "quick" else 3200
     max_macs = 1200000 if tier == "quick" else 30000000
     rng = random.Random("c01/%d" % vlib.seed())
@@ -392,7 +485,7 @@ def run(tier):
                        "interpreter or the reference does not model are skipped and counted." % programs,
         "evaluations": len(results), "distinct_nontrivial": len(kinds),
         "rule": "distinct operator sequences among the executed networks; every executed network has at least one NPU operator",
-        "programs_executed": programs, "skipped": dict(skipped), "over_time_budget": slow[:10], "samples": samples or [{"note": "none"}],
+        "programs_executed": programs, "rewrite_decision_correspondence": rw_cov, "skipped": dict(skipped), "over_time_budget": slow[:10], "samples": samples or [{"note": "none"}],
     })
     vlib.proof_coverage(res, b, ["coq/hw/NpuExec.v: datapath semantics (accumulate, bias, scale with rounding mode, zero points, clamp), "
                                  "model/MlwDecode.v and model/Reorder.v (validated against the C decoder / encoder by the C07 check)",
